@@ -1035,6 +1035,10 @@ pub const TRIVIA: &[&str] = &[
     "\n\n\n\n",
     "\r\n",
     "\t",
+    // several comments in one gap: their relative order is part of C06
+    "\n/* a */\n/* b */\n",
+    " /* a */ /* b */ ",
+    "\n// a\n/* b */\n/* c */\n",
 ];
 
 pub fn template_gaps(t: &str) -> usize {
@@ -1180,6 +1184,50 @@ pub fn nest_case(idx: u64) -> (String, Cfg, String) {
     let s = NEST_CONTAINERS[c].replace('§', NEST_MARKS[m]).replace('◊', NEST_PAYLOADS[p]);
     let plain_len = NEST_CONTAINERS[c].len() + NEST_PAYLOADS[p].len();
     (s, exh_cfg(k, plain_len), format!("container{} payload{} mark{} cfg{}", c, p, m, k))
+}
+
+// ---------------------------------------------------------------------------------------------
+// G-raw: raw elements, enumerated: text (backticks, blanks at either end, blank lines, tabs, indented
+// lines) × fence length × language tag × what separates tag and text × what stands before the closing
+// fence × container (markup, list item, term, call argument, content block, code block) × configuration.
+// Ill-formed combinations are skipped by the harness like every erroneous source.
+// ---------------------------------------------------------------------------------------------
+
+pub const RAW_TEXTS: &[&str] = &[
+    "x", "`a`", "`a` ", "`a`  ", " `a`", "a`", "a` ", "a  b", "", " ", "a\n  b", "a\n\n  b\n", "\n  a\n", "  a\n    b\n  ",
+    "a\t", "``", "a\\", "`a`\n", "a\n`", "a \n b ",
+];
+pub const RAW_FENCES: &[&str] = &["`", "```", "````"];
+pub const RAW_LANGS: &[&str] = &["", "rs", "typ"];
+pub const RAW_SEPS: &[&str] = &[" ", "\n"];
+pub const RAW_CLOSERS: &[&str] = &["", " ", "\n", "\n  "];
+pub const RAW_CONTAINERS: &[&str] = &[
+    "◊\n", "- ◊\n", "#f(◊)\n", "#[◊]\n", "  text ◊ more\n", "#{\n  ◊\n}\n", "/ T: ◊\n", "+ a\n\n  ◊\n", "#f(x)[◊]\n",
+];
+const RAW_CFGS: usize = 4;
+
+pub fn raw_universe() -> u64 {
+    (RAW_TEXTS.len() * RAW_FENCES.len() * RAW_LANGS.len() * RAW_SEPS.len() * RAW_CLOSERS.len() * RAW_CONTAINERS.len() * RAW_CFGS) as u64
+}
+
+pub fn raw_case(idx: u64) -> (String, Cfg, String) {
+    let k = 2 * (idx % RAW_CFGS as u64) as usize;
+    let mut rest = idx / RAW_CFGS as u64;
+    let mut take = |n: usize| -> usize { let v = (rest % n as u64) as usize; rest /= n as u64; v };
+    let (co, cl, se, la, fe) = (take(RAW_CONTAINERS.len()), take(RAW_CLOSERS.len()), take(RAW_SEPS.len()), take(RAW_LANGS.len()), take(RAW_FENCES.len()));
+    let te = take(RAW_TEXTS.len());
+    let fence = RAW_FENCES[fe];
+    let mut raw = String::from(fence);
+    if fence.len() >= 3 {
+        raw += RAW_LANGS[la];
+        if !RAW_LANGS[la].is_empty() { raw += RAW_SEPS[se]; }
+    }
+    raw += RAW_TEXTS[te];
+    raw += RAW_CLOSERS[cl];
+    raw += fence;
+    let s = RAW_CONTAINERS[co].replace('◊', &raw);
+    let n = s.len();
+    (s, exh_cfg(k, n), format!("text{} fence{} lang{} sep{} closer{} container{} cfg{}", te, fe, la, se, cl, co, k))
 }
 
 // ---------------------------------------------------------------------------------------------
